@@ -203,6 +203,95 @@ theorem C15_system_loop_terminates (valid : Str → Bool) (fuel : Nat) (text : S
     sysLoop valid fuel text rid acc ≠ .error .diverge ∨ ∃ st, sysStep valid st = .fail .diverge :=
   iter_terminates (sysStep valid) (fun st => st.1.length) (sysStep_progress valid) fuel (text, rid, acc) hf
 
+theorem parseStoch_nil (valid : Str → Bool) (r : Nat) : parseStoch valid [] r = .error .pyIndex := by
+  simp [parseStoch, parseStochRaw, strip, stripBy, rstripBy, lstripBy]
+
+theorem length_slice_le (s : Str) (i j : Option Int) : (slice s i j).length ≤ s.length := by
+  unfold slice
+  simp only [List.length_take, List.length_drop]
+  omega
+
+theorem slice_to_zero (s : Str) : slice s none (some 0) = [] := by
+  unfold slice clampIdx
+  simp only [Int.lt_irrefl, if_false, Int.toNat_zero]
+  have : ¬ ((0 : Int) > (s.length : Int)) := by omega
+  simp [this]
+
+theorem molEndPos_nonneg (text1 : Str) : 0 ≤ molEndPos text1 := by
+  unfold molEndPos
+  simp only
+  have hf : ∀ (s pat : Str) (k : Nat), -1 ≤ find s pat k := by
+    intro s pat k
+    unfold find
+    split
+    · omega
+    · split <;> omega
+  split
+  · have := hf text1 ['|'] ((find text1 ['}'] + 1 + 2).toNat); omega
+  · have := hf text1 ['}'] 0; omega
+
+/-- the second half of an iteration continues on a strictly shorter text -/
+theorem molStepTail_progress (valid : Str → Bool) (rp : Nat) (s s' : MolSt) (text1 : Str) (pre : Option (PToken × Str)) (rid1 : Nat)
+    (h : molStepTail valid rp s text1 pre rid1 = .next s') : s'.text.length < text1.length ∨ (text1.length = 0 ∧ False) := by
+  unfold molStepTail at h
+  simp only at h
+  have hnn := molEndPos_nonneg text1
+  by_cases hpos : 1 ≤ molEndPos text1
+  · by_cases hlen : 1 ≤ text1.length
+    · left
+      split at h
+      · cases h
+      · split at h
+        · cases h
+        · injection h with h
+          subst h
+          simp only
+          have h1 := length_stripBy_le isWs (slice text1 (some (molEndPos text1)) none)
+          have h2 := length_slice_from_pos text1 (molEndPos text1) hpos hlen
+          unfold strip
+          omega
+    · have ht : text1 = [] := by
+        cases text1 with
+        | nil => rfl
+        | cons c cs => simp at hlen
+      subst ht
+      have : slice ([] : Str) none (some (molEndPos [])) = [] := by simp [slice]
+      rw [this, parseStoch_nil] at h
+      cases h
+  · have he : molEndPos text1 = 0 := by omega
+    have : slice text1 none (some (molEndPos text1)) = [] := by
+      rw [he]; exact slice_to_zero text1
+    rw [this, parseStoch_nil] at h
+    cases h
+
+
+/-- one iteration of the molecule loop either stops or continues on a strictly shorter text -/
+theorem molStep_progress (valid : Str → Bool) (rp : Nat) (s s' : MolSt) (h : molStep valid rp s = .next s') :
+    s'.text.length < s.text.length := by
+  unfold molStep at h
+  simp only at h
+  split at h
+  · cases h
+  · cases hp : molPrefix valid rp s (strip (slice s.text none (some (find s.text ['{'])))) with
+    | error e => rw [hp] at h; cases h
+    | ok r =>
+      obtain ⟨pre, rid1⟩ := r
+      rw [hp] at h
+      simp only at h
+      rcases molStepTail_progress valid rp s s' _ pre rid1 h with h1 | ⟨-, hf⟩
+      · have h2 := length_stripBy_le isWs (slice s.text (some (find s.text ['{'])) none)
+        have h3 := length_slice_le s.text (some (find s.text ['{'])) none
+        unfold strip at h1
+        omega
+      · exact hf.elim
+
+/-- **C15 (the molecule loop terminates)**: with fuel above the length of the text, `Molecule.__init__`'s loop over the stochastic
+objects never runs out of fuel: parsing a molecule terminates (either with an object or with an error) -/
+theorem C15_molecule_loop_terminates (valid : Str → Bool) (rp : Nat) (fuel : Nat) (s : MolSt) (hf : s.text.length < fuel) :
+    molLoop valid rp fuel s ≠ .error .diverge ∨ ∃ s0, molStep valid rp s0 = .fail .diverge :=
+  iter_terminates (molStep valid rp) (fun st => st.text.length) (molStep_progress valid rp) fuel s hf
+
+
 /-- the documented inputs that made `System(...)` loop forever are rejected -/
 theorem C15_unterminated_rejected :
     (match parseSystem (fun _ => false) "CC.|50".toList with | .error .sysUnterminated => true | _ => false) = true ∧
